@@ -389,3 +389,10 @@ mod tests {
         assert_eq!(result, Ok(vec![edge1, edge3]));
     }
 }
+
+// Verification hook (inactive unless built with `--cfg agdb_verif` under Kani).
+#[cfg(all(agdb_verif, kani))]
+#[allow(unused, dead_code, clippy::all)]
+pub(crate) mod verif_h {
+    include!(concat!(env!("AGDB_VERIF_HARNESS"), "/path_search_h.rs"));
+}
